@@ -35,6 +35,9 @@ def obligations(tier):
     obls = [CH("granular_sequences_p%02d" % p, H, fn, t, mode="E1s", functions=F, stubs=[CLOCK], env={"VERIF_PART": str(p)},
                bounds="first op %d of add/remove/clear/set with marking %d; all 9 selectors; second op any of 4 ops x %s selectors x 4 markings%s" % (
                    p // 4, p % 4, "5 of 9" if tier == "quick" else "9", "" if tier == "quick" else "; third op any of 4 ops x 3 selectors x 2 markings")) for p in range(16)]
+    for p in range(12):
+        obls.append(CH("add_add_then_any_p%02d" % p, H, "seq_aao", t, mode="E1s", functions=F, stubs=[CLOCK], env={"VERIF_PART": str(p)},
+                       bounds="add on two different selectors (pair index %% 12 == %d of 36 pairs, same or different marking of 4) then any of 4 ops on any of 9 selectors" % p))
     obls.append(CH("object_level_sequences", H, "objseq", t, mode="E1s", functions=F, stubs=[CLOCK],
                    bounds="one granular add (any of 9 selectors) then every sequence of 3 object-level add/remove/clear/set over 3 marking ids"))
     obls.append(CH("ancestry_by_path_components", H, "ancestry", 240 if tier == "quick" else 900, functions=F[6:9] + F[-3:], stubs=[CLOCK],
